@@ -358,6 +358,25 @@ def from_impl(run, f, d, fn):
         run.ok("O16.4", "from:%s" % key, "delegates to <%s as %s>::clone_boxed" % (src_ty.peel_refs().s[:30], want.split("::")[-1]), loc=loc)
         run.ok("O16.4", "no-extra-calls:%s" % key, "no other call", loc=loc)
         return
+    if not okc and byref and ret[0] == "call" and (fn_path(tr.call_term(ret[1])) or "") in ("core::convert::From::from", "core::convert::Into::into"):
+        # `From<&X>` delegating to the by-value impl: `Self::from(x.clone())` - accepted when that impl is the direct one
+        a = strip_refs(tr.norm(tr.call_args(ret[1])[0]))
+        cl = a[0] == "call" and fn_path(tr.call_term(a[1])) == "core::clone::Clone::clone" and strip_refs(tr.norm(tr.call_args(a[1])[0])) == ("param", 1)
+        owned_s = src_ty.peel_refs().s
+        out_s = f.ty(fn["output"]).s
+        impls = [dd for dd, ff in f.fns.items() if ff.get("impl_trait") == "std::convert::From" and ff.get("name") == "from" and ff.get("has_body") and ff["inputs"]
+                 and f.ty(ff["inputs"][0]).s == owned_s and f.ty(ff["output"]).s == out_s and dd != d]
+        direct = False
+        if len(impls) == 1:
+            ib = f.body(impls[0])
+            itr = tracer_of(ib)
+            iret, _ = peel(itr, itr.norm(itr.local(0)))
+            direct = is_box_new(itr, iret) and strip_refs(itr.norm(itr.call_args(iret[1])[0])) == ("param", 1)
+        extra = [callee(b.term) for b in body_calls(f, body) if b.idx not in (ret[1], a[1] if a[0] == "call" else -1)]
+        if cl and direct and not extra:
+            run.ok("O16.4", "from:%s" % key, "delegates to the direct by-value From<%s> with arg.clone()" % owned_s[:30], loc=loc)
+            run.ok("O16.4", "no-extra-calls:%s" % key, "no other call", loc=loc)
+            return
     run.require(okc and dyns and all(x == want for x in dyns), "O16.4", "from:%s" % key, "%s returns %s" % (key, show(ret)),
                 "Box::new(%s) as Box<dyn %s>" % ("arg.clone()" if byref else "arg", want.split("::")[-1]), loc=loc)
     extra = [callee(b.term) for b in body_calls(f, body) if not (is_box_new(tr, ("call", b.idx, callee(b.term) or "")) or fn_path(b.term) == "core::clone::Clone::clone")]
